@@ -10,7 +10,7 @@ from .. import loop_common, pool_common
 class Prop:
     id = "C05"
     lean_module = "MuduoVerif.Props.C05"
-    gen_engines = ["Loop", "Pool", "ThreadSkel"]
+    gen_engines = ["Loop", "Pool", "ThreadSkel", "LoopSkel"]
     drivers = ["loop", "pool"]
     technique = ("Lean 4 invariant proofs over the thread-indexed transition system of EventLoop::quit/loop and "
                  "EventLoopThread (monitor code over mutex_, cond_, loop_; loop object lifetime explicit, so a use after "
@@ -58,6 +58,7 @@ class Prop:
         "hand-written Model/Loop.lean and Model/Pool.lean, tied by the differential runs (harness/loop_drv.cc vs "
         "lean/Driver/LoopDrv.lean, harness/pool_drv.cc vs lean/Driver/PoolDrv.lean)",
         "vlib/gen/threadskel.py + vlib/logskel_common.py (same AST -> Generated/ThreadSkel.lean: statement skeletons of Thread::Thread / start / join / ~Thread / setDefaultName, detail::startThread, ThreadData::runInThread (Thread.cc), CountDownLatch::wait / countDown) and the hand-written reading Model/ThreadSkelDecl.lean (which atomic step of the model stands for which statements): that the code calls pthread in the modelled order is tied by decide; what the pthread / libc functions do stays trusted (POSIX)",
+        "vlib/gen/loopskel.py (clang-14 JSON AST -> Generated/LoopSkel.lean: statement skeletons of every function of EventLoop.cc, EventLoopThread.cc, EventLoopThreadPool.cc, Acceptor.cc and Channel::Channel / ~Channel, incl. lock / unlock positions; what it leaves out is listed in the generated header) and the reading Model/LoopSkelDecl.lean of what the steps of Model/Loop.lean / Model/Pool.lean assume; the two are proved equal and the orders C05 rests on (quit_ stored before wakeup(); loop_ published / cleared under mutex_ around loop.loop(); quit under mutex_ then join; start before the wait loop; loops_ filled in index order) are read off the extracted skeletons (loopthread_statement_order_tied)",
         "harness/sched/detsched.h and the eventfd/read/write/close interposers of harness/loop_drv.cc; AddressSanitizer "
         "(fake stacks) as the second use-after-destruction detector",
         "pthread mutexes/conditions/join, eventfd and poll behave as documented; Thread::start returns after the new thread "
@@ -107,6 +108,10 @@ class Prop:
             if ctx.stop():
                 return
             pool_common.run_pool(ctx, fl)
+            if ctx.stop():
+                return
+            # a pool destroyed after one of its io loops ended on its own (oracle only)
+            pool_common.run_selfquit(ctx, fl)
             if ctx.stop():
                 return
             # long runs across the 2^31 and 2^32 boundaries of the cursor (implementation + closed-form oracle): thorough
